@@ -108,12 +108,12 @@ def run(ctx):
                     os.replace(paths[0], target)
                     os.symlink(target, paths[0])
                 if channel == 'files':
-                    args = ['tree', '--no-progress', '-k', str(K), '-p', PRE] + paths
+                    args = ['tree', '--no-progress', '-k', str(K), '-p', PRE] + ([] if si % 8 else ['-c', '1']) + paths
                     inputs = paths
                 else:
                     lf = os.path.join(d, 'list.txt')
                     cli.write_listfile(lf, names, si // 4)          # every rendering style of ListFile!Styles in turn
-                    args = ['tree', '--no-progress', '-k', str(K), '-p', PRE.lower(), '-l', lf, '--ldir', os.path.join(d, 'in'), '-c', '2']
+                    args = ['tree', '--no-progress', '-k', str(K), '-p', PRE.lower(), '-l', lf, '--ldir', os.path.join(d, 'in'), '-c', ['2', '1', '16'][(si // 2) % 3]]
                     inputs = names
                 strip = True
             else:
